@@ -65,7 +65,7 @@ class Engine(Executor):
             raise Unsupported("len of opaque collection", node)
         if isinstance(v, Z):
             t = v.t
-            if z3.is_true(z3.simplify(V.is_Str(t))):
+            if self.def_str(v, s):
                 return [(s, Z(V.VInt(z3.Length(V.get_s(t))), "int"))]
             return self.heap_len(v, s, node)
         raise Unsupported("len of %s" % type(v).__name__, node)
@@ -278,7 +278,7 @@ class Engine(Executor):
         raise Unsupported("kwargs.%s" % meth, node)
 
     def str_need(self, recv, s, node, meth):
-        return self.need(s, V.is_Str(recv.t), "AttributeError", node, "receiver of .%s() is a str" % meth)
+        return self.need(s, self.isk(recv, "str"), "AttributeError", node, "receiver of .%s() is a str" % meth)
 
     def scalar_method(self, recv, meth, args, kwargs, s, node):
         t = recv.t
@@ -296,7 +296,7 @@ class Engine(Executor):
                 a = args[0]
                 if not isinstance(a, Z):
                     raise Unsupported("%s with tuple" % meth, node)
-                for (s3, y) in self.need(s2, V.is_Str(a.t), "TypeError", node, "argument of .%s() is a str" % meth):
+                for (s3, y) in self.need(s2, self.isk(a, "str"), "TypeError", node, "argument of .%s() is a str" % meth):
                     if y is not None:
                         out.append((s3, y))
                     else:
@@ -395,7 +395,7 @@ class Engine(Executor):
             if box.elem == "str":
                 if not isinstance(v, Z):
                     raise Unsupported("append of a non-scalar to List[str]", node)
-                ob = self.prove(s, V.is_Str(v.t), "K4", node, "List[str] stays a list of str", clause="elem-type")
+                ob = self.prove(s, self.isk(v, "str"), "K4", node, "List[str] stays a list of str", clause="elem-type")
                 if ob.status != "unsat":
                     raise Unsupported("List[str] element type not provable", node)
                 box.term = z3.Concat(box.term, z3.Unit(V.get_s(v.t)))
@@ -581,7 +581,10 @@ class Engine(Executor):
     # ================================================================ loops
     def loop_key(self, stmt):
         if isinstance(stmt, ast.For):
-            return "for %s in %s" % (ast.unparse(stmt.target), ast.unparse(stmt.iter))
+            tgt = ast.unparse(stmt.target)
+            if isinstance(stmt.target, ast.Tuple) and tgt.startswith("(") and tgt.endswith(")"):
+                tgt = tgt[1:-1]
+            return "for %s in %s" % (tgt, ast.unparse(stmt.iter))
         return "while %s" % ast.unparse(stmt.test)
 
     def st_For(self, stmt, st):
@@ -641,9 +644,16 @@ class Engine(Executor):
                 t = z3.Const("loop_%s!%s" % (n, tag), Val)
                 ann = st.flags.get(("ann", n))
                 c, hint = self.constraint_of_annotation(ann, t) if ann is not None else (None, None)
-                st.env[n] = Z(t, hint if hint is not None else None)
                 if c is not None:
-                    cands.append((n, ann))
+                    cands.append((n, (lambda term, _a=ann: self.constraint_of_annotation(_a, term)[0])))
+                else:
+                    # unannotated: candidate "keeps the definite type it has at loop entry" (Houdini: kept only if inductive)
+                    for tn, tester in (("str", V.is_Str), ("int", V.is_Int), ("bool", V.is_Bool), ("float", V.is_Float)):
+                        if z3.is_true(st.simp(tester(v.t))):
+                            cands.append((n, tester))
+                            hint = tn
+                            break
+                st.env[n] = Z(t, hint if hint is not None else None)
             elif isinstance(v, RefV):
                 box = st.store[v.ref]
                 if isinstance(box, ListBox):
@@ -682,7 +692,7 @@ class Engine(Executor):
         def fresh_elem_of(x, k):
             if isinstance(x, Z):
                 t = x.t
-                if z3.is_true(z3.simplify(V.is_Str(t))):
+                if self.def_str(x, s):
                     sv = V.get_s(t)
                     s.assume(z3.And(k >= 0, k < z3.Length(sv)))
                     return Z(V.VStr(z3.SubString(sv, k, 1)), "str")
@@ -737,23 +747,27 @@ class Engine(Executor):
         self.loop_count += 1
         tag = "L%d" % self.loop_count
         dropped = set()
+        new_names = sorted(n for n in names if n not in st.env)
+        new_types = {n: {"str": V.is_Str, "int": V.is_Int, "bool": V.is_Bool} for n in new_names}
         while True:
             mark_obl, mark_pend = len(self.obligations), len(self.pending)
             body = st.fork()
             cands = self.havoc(body, names, body_attrs, tag)
             cands = [(n, a) for (n, a) in cands if n not in dropped]
+            for n in dropped:
+                if isinstance(body.env.get(n), Z):
+                    body.env[n] = Z(body.env[n].t)          # no static hint for a variable whose type is not stable
             if st.out or self.fi.is_generator:
                 body.out = [("havoc", tag)] if (st.out or any(isinstance(x, (ast.Yield,)) for b in stmt.body for x in ast.walk(b))) else []
             # assume type-stability candidates and the written invariants for an arbitrary iteration
-            for (n, ann) in cands:
-                c, _ = self.constraint_of_annotation(ann, body.env[n].t)
-                body.assume(c)
+            for (n, mk) in cands:
+                body.assume(mk(body.env[n].t))
             # entry check of the candidates (drop on failure: annotations are hints, not facts)
             bad = set()
-            for (n, ann) in cands:
+            for (n, mk) in cands:
                 ev = entry_env.get(n)
                 if isinstance(ev, Z):
-                    c, _ = self.constraint_of_annotation(ann, ev.t)
+                    c = mk(ev.t)
                     r, _m = self.solver.check(st.pc + [z3.Not(c)])
                     if r != "unsat":
                         bad.add(n)
@@ -777,11 +791,16 @@ class Engine(Executor):
                         continue
                     for (s2, oc) in self.exec_block(stmt.body, x):
                         if oc is None or oc[0] == "continue":
+                            for n in new_names:
+                                v = s2.env.get(n)
+                                for tn in list(new_types[n]):
+                                    if not (isinstance(v, Z) and (v.hint == tn or self.solver.check(s2.pc + [z3.Not(new_types[n][tn](v.t))])[0] == "unsat")):
+                                        del new_types[n][tn]
                             # K4 (preserve) + candidate type-stability
-                            for (n, ann) in cands:
+                            for (n, mk) in cands:
                                 v = s2.env.get(n)
                                 if isinstance(v, Z):
-                                    c, _ = self.constraint_of_annotation(ann, v.t)
+                                    c = mk(v.t)
                                     r, _m = self.solver.check(s2.pc + [z3.Not(c)])
                                     if r != "unsat":
                                         bad.add(n)
@@ -803,9 +822,46 @@ class Engine(Executor):
                 continue
             break
         # state after the loop: an arbitrary number of iterations happened
+        later_reads = self.names_read_after(stmt)
+        need_nonempty = [n for n in new_names if n in later_reads]
+        if need_nonempty:
+            # a variable first bound inside the loop is read afterwards: the loop must run at least once
+            nonempty = self.iter_nonempty(it, st)
+            self.prove(st, nonempty, "K1", stmt, "loop runs at least once (%s is first bound inside it and read later)" % ", ".join(need_nonempty), clause="UnboundLocalError")
         for a in after_template:
+            for n in new_names:
+                t = z3.Const("loop_%s!%s" % (n, tag), Val)
+                hint = None
+                for tn, tester in new_types[n].items():
+                    a.assume(tester(t))
+                    hint = tn
+                a.env[n] = Z(t, hint)
             results.append((a, None))
         return results
+
+    def names_read_after(self, loop_stmt):
+        """Names loaded anywhere in the function outside this loop (over-approximation of 'read later')."""
+        inside = {id(n) for n in ast.walk(loop_stmt)}
+        reads = set()
+        for n in ast.walk(self.cur_fi.node):
+            if isinstance(n, ast.Name) and isinstance(n.ctx, ast.Load) and id(n) not in inside:
+                reads.add(n.id)
+        return reads
+
+    def iter_nonempty(self, it, st):
+        if isinstance(it, tuple):
+            kind, a = it
+            if kind == "enumerate":
+                return self.iter_nonempty(a[0], st)
+            if kind == "range":
+                lo = V.to_int(a[0].t) if len(a) >= 2 else z3.IntVal(0)
+                hi = V.to_int(a[1].t) if len(a) >= 2 else V.to_int(a[0].t)
+                return hi > lo
+        if isinstance(it, Z):
+            return z3.And(V.is_Str(it.t), z3.Length(V.get_s(it.t)) > 0)
+        if isinstance(it, RefV) and isinstance(st.store[it.ref], SeqBox):
+            return z3.Length(st.store[it.ref].term) > 0
+        return T(False)
 
     # ================================================================ verify one function
     def verify(self):
